@@ -585,7 +585,7 @@ func (device *AbacoUDPReceiver) start() (err error) {
 				device.data <- queue
 				queue = make([]*packets.Packet, 0, initialQueueCapacity)
 			default:
-				_, _, err := device.conn.ReadFrom(message)
+				n, _, err := device.conn.ReadFrom(message)
 				// If error, was it a timeout?
 				if nerr, ok := err.(net.Error); ok && nerr.Timeout() {
 					device.conn.SetReadDeadline(time.Now().Add(delay))
@@ -596,13 +596,13 @@ func (device *AbacoUDPReceiver) start() (err error) {
 					return
 				}
 
-				if pack, err := packets.ReadPacket(bytes.NewReader(message)); err == nil {
+				// Parse only the bytes of this datagram. A datagram that is not a valid packet is dropped:
+				// if this goroutine gave up, the next ReadAllPackets (and with it the reader loop, Start and
+				// Stop) would wait for it forever.
+				if pack, err := packets.ReadPacket(bytes.NewReader(message[:n])); err == nil {
 					queue = append(queue, pack)
-				} else if err == io.EOF {
-					return
 				} else {
-					fmt.Printf("Error converting UDP to packet: err %v, packet %v\n", err, pack)
-					return
+					fmt.Printf("Ignoring a UDP datagram of %d bytes that is not a valid packet: %v\n", n, err)
 				}
 			}
 		}
